@@ -148,6 +148,78 @@ def block_cosim(src, std="f2008", ignore_comments=True, process_directives=False
     return out, info
 
 
+def reader_cosim(src, mode="free", ic=(True, False), omp=False, pd=False, dirs=(), fs=(), case=None):
+    """Reader model M-B (Fp.Reader) against the real reader on `src`: the whole item stream
+    (kind, text, label, construct name, span, comment/cpp/include items, linecount).
+    mode: 'free' | 'fix'; dirs / fs: include path and files (relative names) for INCLUDE.
+    -> findings"""
+    from fv import cosim_reader as CR
+    from fv.model import get_model
+    m = get_model()
+    out = []
+    for ic_ in ic:
+        c = {"src": src, "mode": mode, "ic": ic_, "omp": omp, "pd": pd, "dirs": list(dirs), "fs": [list(x) for x in fs],
+             "script": None, "feat": set()}
+        try:
+            d = CR.check_case(m, c)
+        except Exception as e:  # noqa: BLE001
+            d = {"error": "%s: %s" % (type(e).__name__, str(e)[:200])}
+        if d is not None:
+            out.append({"signature": "correspondence:Fp.Reader", "no_input": True,
+                        "what": "reader model and real reader differ: %s" % str({k: v for k, v in d.items() if k != "case"})[:400],
+                        "replay": {"case": case, "source": src, "cosim": {k: v for k, v in c.items() if k != "feat"}}})
+            break
+    return out
+
+
+_TREE_TIE = {}
+
+
+def tree_cosim(src, std="f2008", copies=False, case=None, seed=0):
+    """Tree model M-E (Fp.Tree: replay of the recorded `_set_parent` / `Base.__init__` events)
+    against the real parse of `src`: parent map, walk(), get_root(), get_child() of every
+    node; with copies=True also the model's verdict and canonical form for copy.deepcopy and
+    a pickle round trip from the root and from one inner node.  -> (findings, info)"""
+    import random as _r
+    from fv import cosim_symtree as CS, extract_classes, real
+    from fv.model import get_model
+    m = get_model()
+    out = []
+    info = {}
+
+    def bad(what, model="Fp.Tree"):
+        out.append({"signature": "correspondence:" + model, "no_input": True, "what": what[:400],
+                    "replay": {"case": case, "source": src, "std": std}})
+    try:
+        if "cids" not in _TREE_TIE:
+            _TREE_TIE["cids"] = CS.class_ids()
+            _TREE_TIE["table"] = extract_classes.load()
+        try:
+            tree, rec = CS.parse_recorded(src, std, _TREE_TIE["cids"])
+        finally:
+            real._current_std[0] = None     # parse_recorded re-created the parser classes
+        pr, nn, script, root = CS.check_tree(m, "tree", tree, rec)
+        info["nodes"] = nn
+        for x in pr:
+            bad("tree model and real tree differ: " + x)
+        if copies and not pr:
+            from fparser.two.utils import Base, walk
+            ft = CS.facts_text_for(rec, _TREE_TIE["table"])
+            nodes = [x for x in walk(tree) if isinstance(x, Base)]
+            starts = [tree] + ([_r.Random(seed).choice(nodes)] if nodes else [])
+            for st_obj in starts:
+                for how in ("deepcopy", "pickle"):
+                    pr2, v = CS.check_deepcopy(m, "copy", tree, rec, script, st_obj, ft, how)
+                    info["copy:" + v] = info.get("copy:" + v, 0) + 1
+                    for x in pr2:
+                        bad("copy model and real %s differ: %s" % (how, x))
+    except real.U.FortranSyntaxError:
+        info["rejected"] = 1
+    except Exception as e:  # noqa: BLE001
+        bad("tree co-simulation failed: %s: %s" % (type(e).__name__, str(e)[:200]))
+    return out, info
+
+
 def token_cosim(lines, case=None, limit=40):
     """tokeniser model M-A (splitquote / splitparen / string_replace_map / re-application)
     against the real functions on the given statement lines -> findings"""
